@@ -148,10 +148,10 @@ RenderEv ==
      IN /\ (E.israw /\ Flat(r[1]) # E.raw) => Report("DRIFT", "raw")
         /\ (E.status = "nil" /\ ~E.israw /\ Toks(r[1]) # E.toks) => Report("DRIFT", "tokens")
         /\ (r[2] # obsT) => Report("DRIFT", "table")
-        /\ MonCommon(f, refs, bare)
-        /\ (E.status = "nil") => MonFile(f, specs, refs, bare)
+        /\ MonCommon(f, refs, bare) = TRUE        \* (equations: evaluated as expressions, not as conjuncts of the action)
+        /\ ((E.status = "nil") => MonFile(f, specs, refs, bare)) = TRUE
         /\ (clean[f] # "" /\ clean[f] # E.out) => Report("C08", "system: repeat")
-        /\ (E.status = "nil") => TokensKept(BodyCells(f), E.toks)
+        /\ ((E.status = "nil") => TokensKept(BodyCells(f), E.toks)) = TRUE
         /\ Resync(f, obsT)
         /\ bound' = [bound EXCEPT ![f] = Bind(@, {<<x.path, x.qual>> : x \in refs}, bare)]
         /\ clean' = [clean EXCEPT ![f] = E.out]
@@ -167,9 +167,9 @@ FragEv ==
          k == <<c, f>>
      IN /\ (E.status = "nil" /\ Toks(r[1]) # E.toks) => Report("DRIFT", "fragment tokens")
         /\ (r[2] # obsT) => Report("DRIFT", "table")
-        /\ MonCommon(f, refs, bare)
+        /\ MonCommon(f, refs, bare) = TRUE
         /\ (k \in DOMAIN lastfrag /\ lastfrag[k] # E.out) => Report("C08", "system: repeat of a fragment")
-        /\ (E.status = "nil") => TokensKept({c}, E.toks)
+        /\ ((E.status = "nil") => TokensKept({c}, E.toks)) = TRUE
         /\ Resync(f, obsT)
         /\ bound' = [bound EXCEPT ![f] = Bind(@, {<<x.path, x.qual>> : x \in refs}, bare)]
         \* the fragment may have registered paths: the next File render may differ, other fragments of this File too
@@ -192,7 +192,7 @@ PlainEv ==
         /\ (E.c \in DOMAIN lastplain /\ lastplain[E.c] # E.out) => (Report("C07", "the same statement renders different bytes later in the process (system tier)")
                                                                     /\ Report("C08", "system: repeat of Render / GoString"))
         /\ lastplain' = Put(lastplain, E.c, E.out)
-        /\ (E.status = "nil") => TokensKept({E.c}, E.toks)
+        /\ ((E.status = "nil") => TokensKept({E.c}, E.toks)) = TRUE
   /\ nops' = nops + 1 /\ UNCHANGED <<cells, files, ntok, obs, bound, hist, clean, lastfrag>>
 
 \* a behaviour during which the library killed the process (stack overflow, concurrent map access: nothing Go can recover
